@@ -59,5 +59,20 @@ claim("C02", "lockstep",
       "State machines over the pair of interpreters loaded from the same raw register file (E=0/1, D=0/1, any widths, stale non-authoritative copies 30%) with actions step (JIT edge-solving synthesis, all opcodes), IRQ, NMI, Reset; after every action Step() results, Cycles, AllCycles, architectural view, flags, PPC/PRK, pending interrupt and memory must agree; exactly one interpreter panicking is a violation. No model is trusted here: the oracle is the other implementation.",
       "Both interpreters wrong in the same way is invisible to this check (C01 covers native mode against a model).",
       "DESIGN.md section 3 C02")
+claim("C08", "lockstep",
+      "property-based crash/address-range test (rapid) with generators pinned to the top of the 24-bit space, plus model lockstep in native mode",
+      "Programs whose data bank, long operands, [dp] pointers and index sums are solved to reach $FFFFFF, overflow 24 bits or straddle $FFFFFF/$000000 are executed on both interpreters over a fully mapped recording memory: no Step may panic, no bus address may be >= 2^24, and in native mode the access must land where the WDC model says (EA mod 2^24). About 9% of all executed steps are top-of-memory steps, for every opcode that has such a mode, reads and writes, native and emulation mode.",
+      "Trusted: the recording memory sees every address the bus hands out; harness/wdc for the native-mode placement. A crash needing a specific non-edge operand value could be missed.",
+      "DESIGN.md section 3 C08")
+claim("C12", "sweep",
+      "exhaustive enumeration of the cycle-cell grid + model-based property test (rapid) of RunUntil against its specification loop",
+      "Part A enumerates every opcode x {E=1; E=0 x M x X} x DL x index page-cross x branch outcome x displacement x PC position on both interpreters (133k cells): cycles >= 1, == CPU.Cycles, AllCycles accounting, stop flag. Parts B-D run JIT-synthesised programs on emulator.System and compare RunUntil(target,max) for targets on/off the path and budgets 0/1/exact-1/exact/exact+1/large with the loop 'while cycles<max and PC!=target: Step' executed on a twin CPU, count OnPC/OnWDM/Logger.Write invocations (WDM operands taken from memory, not from the CPU) and exercise STP/Reset; a 30 s watchdog turns a hang into a violation.",
+      "Termination is reduced to 'every Step reports >= 1 cycle' (enumerated over the grid, not over all register values) plus sampled runs. cpualt offers no working OnPC (dead field): only its OnWDM is checked.",
+      "DESIGN.md section 3 C12")
+claim("C14", "lockstep",
+      "differential (with/without tracing) property test (rapid) + trace-line parsing against an independent decoder",
+      "Generated programs run on emulator.System with and without a recording Logger and on cpualt with and without DisassembleCurrentPC before each step: final registers, flags, cycle totals and memory must be equal; every trace line is parsed (both formats) and its address, byte list for the current widths, mnemonic, canonical operand rendering, branch destination, register values in the selected width and flag letters are compared with harness/wdc's decoder.",
+      "Trusted: harness/wdc decoder/renderer; cosmetic differences (blanks, '$', 'Sn') are normalised; BRK may be listed with 1 or 2 bytes. The whole bus is mapped, so cpualt's open-bus latch is not observable.",
+      "DESIGN.md section 3 C14")
 for e in ENGINES:
     e["serves_properties"] = sorted(k for k, v in CLAIMED.items() if v["engine"] == e["name"])
